@@ -11,6 +11,8 @@ class Escape(BaseException):
 
 _decide = [None]     # installed by sched
 _pick = [None]       # installed by sched: a feasible integer value of a term on the current path
+_hash_registry = []  # symbolic values hashed on the current path (reset per run by the scheduler)
+_hashed = [False]    # did any symbolic value serve as a dictionary key in this process?
 
 
 def lift(x):
@@ -158,7 +160,28 @@ class Sym:
         return self._cmp(o, X.ne)
 
     def __hash__(self):
-        raise Escape('symbolic value used as a hash key')
+        # dictionary / set semantics for symbolic keys: equal values must hash alike.  Every symbolic value hashed on this
+        # path is compared (a solver-decided fork) with the ones hashed before; equal -> same bucket, else a bucket of its
+        # own.  A symbolic key is assumed different from any *concrete* key of the same container (recorded as an
+        # assumption in the evidence whenever this code runs).
+        if self.e.op == 'c':
+            v = self.e.args[0]
+            return hash(int(v)) if v.denominator == 1 else hash(float(v))
+        if _decide[0] is None:
+            raise Escape('symbolic value used as a hash key')
+        _hashed[0] = True
+        for t, hid in _hash_registry:
+            if t.e is self.e:
+                return hid
+        for t, hid in list(_hash_registry):
+            if t.e.sort == 'B' or self.e.sort == 'B':
+                continue
+            if bool(Sym(X.eq(self.e, t.e))):
+                _hash_registry.append((self, hid))
+                return hid
+        hid = 0x5EED0000 + len(_hash_registry)
+        _hash_registry.append((self, hid))
+        return hid
 
     # ---- boolean algebra (only meaningful for sort B)
     def _b(self):
